@@ -261,7 +261,17 @@ func packetHistory(r *core.Run, failPos, maxOps int) {
 		return
 	}
 	var firstErr string
+	// a garbage collection (finalizers included) between two operations of a live writer, while the writers of
+	// earlier histories are garbage: the moment is a function of the run index
+	gcAt := -1
+	if r.Cfg.Index%16 == 5 && len(ops) > 1 {
+		gcAt = 1 + int(r.Cfg.Index/16)%(len(ops)-1)
+	}
 	for i, o := range ops {
+		if i == gcAt {
+			core.ForceGC()
+			r.Fault("gc_between_ops")
+		}
 		m.apply(o, i)
 		if p := r.Call("packet.Writer."+wopName[o.kind], func() { applyW(w, o) }); p != nil {
 			r.Fail("C20", "panic", p.Frame, p.Kind, "%s(len %d, n %d) panicked: %s", wopName[o.kind], len(o.b), o.n, p.Value)
@@ -529,8 +539,22 @@ func packetTrunc(r *core.Run, t int) {
 				v := rd.ReadCString()
 				got, zero, site = append([]byte(v), 0), v == "", "Reader.ReadCString"
 			case 7, 8:
-				v := rd.ReadCStringNWithoutTrim(o.n)
-				got, zero, site = []byte(v), v == "", "Reader.ReadCStringNWithoutTrim"
+				// the three fixed-width readers take the same octets and differ in what they strip
+				switch (i + len(in)) % 3 {
+				case 0:
+					v := rd.ReadCStringNWithoutTrim(o.n)
+					got, zero, site = []byte(v), v == "", "Reader.ReadCStringNWithoutTrim"
+				case 1:
+					v := rd.ReadFixedBinaryN(o.n)
+					got, zero, site = []byte(v), v == "", "Reader.ReadFixedBinaryN"
+					want = bytes.TrimRight(want, "\x00")
+				default:
+					v := rd.ReadCStringN(o.n)
+					got, zero, site = []byte(v), v == "", "Reader.ReadCStringN"
+					if k := bytes.IndexByte(want, 0); k >= 0 {
+						want = want[:k]
+					}
+				}
 			}
 		})
 		if p != nil {
